@@ -176,14 +176,12 @@ def check(repo: Repo, R) -> None:
     R.check(ok, rule, key_of(ff, "reconnect"), ff.site, f"one new instance per leaf, each of its ports connected to the flat module's signal of the mapped net's name: {ok}", why="leaf terminals are connected to other nets than in the hierarchy")
     fs = repo.func(F_FLATTEN, "_find_signal_or_port")
     frets = shared.returns_of(fs.node)
-    ok = {shared.prov_text(fs.node, r.value) for r in frets} == {"m.ports.get(name)", "m.signals.get(name)"} and len(shared.raising_leaves(fs.node)) >= 1 and all(
-        shared.conds_imply(path_conditions(fs.node, r), [(shared.parse_cond(shared.prov_text(fs.node, r.value) + " is None"), False)]) is True or shared.cond_match(fs.node, r, shared.prov_text(fs.node, r.value) + " is None", False) for r in frets)
-    if not ok:
-        # the same search as a loop over the two namespaces: `for ns in (m.ports, m.signals): x = ns.get(name); if x is not None: return x`, then raise
-        for lp_ in [n for n in fs.node.body if isinstance(n, ast.For)]:
-            if isinstance(lp_.iter, (ast.Tuple, ast.List)) and {ast.unparse(e) for e in lp_.iter.elts} == {"m.ports", "m.signals"} and isinstance(lp_.target, ast.Name) and not lp_.orelse:
-                rr = [r for r in shared.returns_of(fs.node) if any(x is r for x in ast.walk(lp_))]
-                ok = len(rr) == 1 and len(frets) == 1 and shared.prov_text(fs.node, rr[0].value) == f"{lp_.target.id}.get(name)" and shared.cond_match(fs.node, rr[0], f"{lp_.target.id}.get(name) is None", False) and au.raises(fs.node.body)
+    # every return hands out a lookup by exact name that was tested not to be None; ports are searched before signals; a miss raises
+    ralts = [(ast.unparse(v), shared.resolved_conditions(fs.node, cds)) for r in frets for v, cds in shared.alternatives(fs.node, r.value, list(path_conditions(fs.node, r)))]
+    ok = {v for v, _c in ralts} == {"m.ports.get(name)", "m.signals.get(name)"} and all(
+        shared.conds_imply(cds, [(shared.parse_cond(v + " is None"), False)]) is True for v, cds in ralts) and all(
+        shared.conds_imply(cds, [(shared.parse_cond("m.ports.get(name) is None"), True)]) is True for v, cds in ralts if v == "m.signals.get(name)") and shared.raises_under(
+        fs.node, [("m.ports.get(name) is None", True), ("m.signals.get(name) is None", True)]) 
     R.check(ok, rule, key_of(fs), fs.site, f"nets are found by exact name among ports and signals, else it raises: {ok}", why="a missing net silently connects to None")
     R.floor("C16.1-leaf-kinds-agree", 3)
     R.floor("C16.3-generated-names-unique", 4)
